@@ -305,6 +305,11 @@ class Exec:
         return env
 
     def eval_default(self, clo, node):
+        pre = getattr(clo, "default_values", {}).get(id(node))
+        if pre is not None:
+            if pre[0] == "u":
+                raise Unsupported(pre[1])
+            return pre[1]
         self.frames.append(Frame({}, clo.env_chain, clo.module, clo.name))
         try:
             return self.expr(node)
@@ -389,7 +394,28 @@ class Exec:
 
     def s_FunctionDef(self, n):
         fr = self.frame
-        self.frame.env[n.name] = Closure(n, [fr.env] + fr.parents, fr.module)
+        self.frame.env[n.name] = self._with_defaults(Closure(n, [fr.env] + fr.parents, fr.module))
+
+    def s_Delete(self, n):
+        for t in n.targets:
+            if isinstance(t, ast.Name):
+                self.frame.env.pop(t.id, None)
+            elif isinstance(t, ast.Subscript):
+                o = self.expr(t.value)
+                i = self.expr(t.slice)
+                if isinstance(o, dict):
+                    k = self.key(i)
+                    if k not in o:
+                        raise RaiseEx("KeyError", t.lineno)
+                    del o[k]
+                elif isinstance(o, list) and isinstance(i, int):
+                    if not -len(o) <= i < len(o):
+                        raise RaiseEx("IndexError", t.lineno)
+                    del o[i]
+                else:
+                    raise Unsupported("del on a symbolic container")
+            else:
+                raise Unsupported("del of this target")
 
     def s_With(self, n):
         for it in n.items:
@@ -431,9 +457,6 @@ class Exec:
         fr = self.frame
         fr.env[n.name] = ClassRef(fr.module, n.name, n)
         fr.env[n.name].env_chain = [fr.env] + fr.parents
-
-    def s_Delete(self, n):
-        raise Unsupported("del")
 
     # loops ------------------------------------------------------------
     def loop_id(self, n):
@@ -656,6 +679,17 @@ class Exec:
         if isinstance(t, ast.Name):
             self.frame.env[t.id] = v
         elif isinstance(t, (ast.Tuple, ast.List)):
+            stars = [i for i, e in enumerate(t.elts) if isinstance(e, ast.Starred)]
+            if stars:
+                if len(stars) != 1 or not isinstance(v, (tuple, list)):
+                    raise Unsupported("starred assignment from a symbolic sequence")
+                k, after = stars[0], len(t.elts) - stars[0] - 1
+                if len(v) < len(t.elts) - 1:
+                    raise RaiseEx("ValueError")
+                vals = list(v[:k]) + [list(v[k:len(v) - after])] + list(v[len(v) - after:] if after else [])
+                for tt, vv in zip(t.elts, vals):
+                    self.assign(tt.value if isinstance(tt, ast.Starred) else tt, vv)
+                return
             vals = self.unpack(v, len(t.elts))
             for tt, vv in zip(t.elts, vals):
                 self.assign(tt, vv)
@@ -762,7 +796,19 @@ class Exec:
 
     def e_Lambda(self, n):
         fr = self.frame
-        return Closure(n, [fr.env] + fr.parents, fr.module)
+        return self._with_defaults(Closure(n, [fr.env] + fr.parents, fr.module))
+
+    def _with_defaults(self, clo):
+        """default values of a function defined while executing are evaluated NOW (python semantics), not at call time"""
+        a = clo.node.args
+        vals = {}
+        for d in list(a.defaults) + [d for d in a.kw_defaults if d is not None]:
+            try:
+                vals[id(d)] = ("v", self.expr(d))
+            except Unsupported as e:
+                vals[id(d)] = ("u", str(e))      # reported only if the default is actually used
+        clo.default_values = vals
+        return clo
 
     def e_Attribute(self, n):
         o = self.expr(n.value)
@@ -807,6 +853,12 @@ class Exec:
                     return go(i + 1) if t else v
                 return v if t else go(i + 1)
             t = z3.simplify(t)
+            vbool = is_sym(v) and v.sort() == BOOL
+            if not vbool:
+                # python's and/or return the OPERAND, not its truth value: for a non-boolean symbolic operand the path forks
+                if self.decide(t):
+                    return go(i + 1) if isand else v
+                return v if isand else go(i + 1)
             if z3.is_true(t):
                 return go(i + 1) if isand else True
             if z3.is_false(t):
@@ -814,6 +866,8 @@ class Exec:
             # the remaining operands are evaluated only when t is true (and) / false (or)
             cond = t if isand else z3.Not(t)
             rest = self.scoped(cond, lambda: go(i + 1))
+            if not (isinstance(rest, bool) or (is_sym(rest) and rest.sort() == BOOL)):
+                raise Unsupported("and/or of a symbolic boolean with a non-boolean operand (the result is that operand, not a truth value)")
             rt = self.truth(rest)
             if isand:
                 return z3.And(t, toz(rt))
